@@ -286,4 +286,6 @@ Arguments invoke {S}.
 Arguments poll_with {S}.
 Arguments join_loop {S}.
 Arguments after_loop {S}.
+Arguments join_init {S}.
+Arguments after_init {S}.
 Arguments poll {S}.
